@@ -1518,7 +1518,7 @@ impl Property for C11 {
         768
     }
     fn cases(&self, tier: Tier) -> u64 {
-        tier.pick(1_000_000, 8_000_000)
+        tier.pick(1_000_000, 40_000_000)
     }
     fn run_tape(&self, tape: &[u8], ctx: &mut Ctx) -> Result<(), Failure> {
         let mut t = Tape::new(tape);
